@@ -41,6 +41,13 @@ pub fn run<C: Ciphersuite, L: Lab<C>>(lab: &mut L, p: &Params) {
     let vk = *keys.1.verifying_key();
 
     if p.variant == V_REFUSE {
+        // below the threshold nothing is learnt: the coalition's shares are an invertible image of
+        // as many independent coefficient draws (the polynomial has t-1 independent non-constant
+        // coefficients, not merely degree t-1)
+        lab.enter("secrecy");
+        let shares: Vec<_> = coalition.iter().map(|i| keys.0[i].signing_share().to_scalar()).collect();
+        lab.jointly_uniform(&shares, "the shares of fewer than t holders are jointly uniform whatever the secret (full-rank image of independent coefficient draws)");
+        lab.leave();
         lab.enter("refusals");
         let sess = open_session::<C, L>(lab, &keys, &p.subset, msg.clone());
         for id in &coalition {
